@@ -14,6 +14,7 @@
   new_resource_iterator      : source indexed (drained when source_delete), target processed after the index exists, every
                                other stream passes as the same object
 """
+from contracts.common import fn_named
 from contracts.common import havoc_mutable_scalars, same_stream, Item, mk_resource, mk_package2, run_spec, ghost_row, expect_no_raise_or_same, _b
 from contracts.streams import calls, effect_names
 
@@ -390,15 +391,15 @@ def sym_new_resource_iterator(vc):
                         check(it, 'other-stream-same-object' + tag, len(ys) == 1 and same_stream(it, ys[0].obj, r) and not dr)
                     elif which == 'source':
                         if source_delete:
-                            ok = len(ys) == 0 and len(dr) == 1 and isinstance(dr[0].src, GenObj) and dr[0].src.fn.name == 'indexer' \
+                            ok = len(ys) == 0 and len(dr) == 1 and isinstance(dr[0].src, GenObj) and fn_named(dr[0].src, 'indexer') \
                                 and dr[0].src.args[0] is r
                             check(it, 'deleted-source-is-indexed-by-draining-it' + tag, ok)
                         else:
-                            ok = len(ys) == 1 and isinstance(ys[0].obj, GenObj) and ys[0].obj.fn.name == 'indexer' and \
+                            ok = len(ys) == 1 and isinstance(ys[0].obj, GenObj) and fn_named(ys[0].obj, 'indexer') and \
                                 ys[0].obj.args[0] is r and not dr
                             check(it, 'kept-source-is-indexed-while-it-streams' + tag, ok)
                     else:
-                        ok = len(ys) == 1 and isinstance(ys[0].obj, GenObj) and ys[0].obj.fn.name == 'process_target' and \
+                        ok = len(ys) == 1 and isinstance(ys[0].obj, GenObj) and fn_named(ys[0].obj, 'process_target') and \
                             ys[0].obj.args[0] is r
                         check(it, 'target-is-joined' + tag, ok)
                     cover(it, 'iter-reachable' + tag)
@@ -497,8 +498,155 @@ def nat_join(h):
             h.check(ok2, P + 'join.py::join_with_self', cfg, sorted(groups), got2[:2])
 
 
+
+# ------------------------------------------------------------------------------------------------ field mapping helpers (bounded)
+
+FIELDS_SPEC = '''
+def fixed(fields):
+    out = {}
+    for k in fields:
+        spec = fields[k]
+        name = k
+        agg = 'any'
+        if spec is not None:
+            if 'name' in spec:
+                name = spec['name']
+            if 'aggregate' in spec:
+                agg = spec['aggregate']
+        out[k] = (name, agg)
+    return out
+'''
+
+
+def sym_field_helpers(vc):
+    """fix_fields / expand_fields / order_fields -- BOUNDED (structure unrolled: <= 2 explicit target fields plus the '*'
+    wildcard, <= 3 source schema fields with pairwise distinct symbolic names):
+       fix_fields   : every spec gets name (default: its key) and aggregate (default 'any'); nothing else changes
+       expand_fields: '*' is replaced by one entry per source field whose NAME is not already the source name of an explicit
+                      entry, keyed and named by that field, with a copy of the wildcard's spec; without '*' nothing changes
+       order_fields : entries whose key is a source schema field come first in schema order, then the others; the set of
+                      entries and their specs are unchanged"""
+    import z3
+    from pyvc.api import real_function, check, cover, sym_str, PyDict, PyList, term, StrS, SV
+    from pyvc import lib
+    fk = vc.under_contract(P + 'join.py', ['fix_fields'])
+    vc.under_contract(P + 'join.py', ['expand_fields'])
+    vc.under_contract(P + 'join.py', ['order_fields'])
+    vc.bounded_label = 'join field helpers'
+    vc.bounded_notes.append('join.fix_fields / expand_fields / order_fields: 0..2 explicit target fields (literal keys) with optional '
+                            'symbolic source names, with / without the * wildcard, 0..3 source schema fields with pairwise distinct '
+                            'symbolic names')
+    try:
+        # ---- fix_fields
+        for shape in ([], [None], [{}], [{'name': 1}], [{'aggregate': 1}], [{'name': 1, 'aggregate': 1}, None]):
+            def thunk(it, shape=shape):
+                f = real_function(it, 'dataflows.processors.join', 'fix_fields')
+                d = PyDict()
+                want = {}
+                for j, sp in enumerate(shape):
+                    key = 'f%d' % j
+                    if sp is None:
+                        d.d[key] = None
+                        want[key] = (key, 'any')
+                    else:
+                        s = PyDict()
+                        nm, ag = key, 'any'
+                        if 'name' in sp:
+                            nm = sym_str(it, 'src%d' % j)
+                            s.d['name'] = nm
+                        if 'aggregate' in sp:
+                            ag = sym_str(it, 'agg%d' % j)
+                            s.d['aggregate'] = ag
+                        s.d['other'] = 'kept'
+                        d.d[key] = s
+                        want[key] = (nm, ag)
+                r = it.call(f, [d])
+                check(it, 'returns-the-same-dict-with-the-same-keys', r is d and list(d.d) == ['f%d' % j for j in range(len(shape))])
+                for key, (nm, ag) in want.items():
+                    s = d.d[key]
+                    ok = isinstance(s, PyDict) and 'name' in s.d and 'aggregate' in s.d
+                    check(it, 'spec-completed[%s]' % key, ok and _b(lib.values_equal(it, s.d['name'], nm)) is not False
+                          and _b(lib.values_equal(it, s.d['aggregate'], ag)) is not False)
+                    if ok:
+                        check(it, 'name-default-is-the-key-else-kept[%s]' % key, _b(lib.values_equal(it, s.d['name'], nm)))
+                        check(it, 'aggregate-default-is-any-else-kept[%s]' % key, _b(lib.values_equal(it, s.d['aggregate'], ag)))
+                        check(it, 'other-spec-entries-kept[%s]' % key, shape[int(key[1:])] is None or s.d.get('other') == 'kept')
+                cover(it, 'reachable')
+            vc.explore(fk, thunk)
+        # ---- expand_fields
+        for nexp in (0, 1, 2):
+            for star in (False, True):
+                for nsf in (0, 1, 2, 3):
+                    def thunk2(it, nexp=nexp, star=star, nsf=nsf):
+                        f = real_function(it, 'dataflows.processors.join', 'expand_fields')
+                        d = PyDict()
+                        srcs = []
+                        for j in range(nexp):
+                            nm = sym_str(it, 'src%d' % j)
+                            srcs.append(nm)
+                            d.d['t%d' % j] = PyDict({'name': nm, 'aggregate': 'sum'})
+                        star_spec = PyDict({'name': '*', 'aggregate': 'last'})
+                        if star:
+                            d.d['*'] = star_spec
+                        sfs = [PyDict({'name': sym_str(it, 'sf%d' % j), 'type': 'string'}) for j in range(nsf)]
+                        for a in range(nsf):
+                            it.assume(sfs[a].d['name'].t != z3.StringVal('*'))
+                            for b in range(a + 1, nsf):
+                                it.assume(sfs[a].d['name'].t != sfs[b].d['name'].t)
+                            for j in range(nexp):
+                                # a schema field called like an explicit TARGET key would overwrite that entry: not in scope here
+                                it.assume(sfs[a].d['name'].t != z3.StringVal('t%d' % j))
+                        before = dict(d.d)
+                        it.call(f, [d, PyList(sfs)])
+                        tag = '[%d,%s,%d]' % (nexp, star, nsf)
+                        if not star:
+                            check(it, 'no-wildcard-nothing-changes' + tag, d.d == before)
+                            return
+                        check(it, 'wildcard-entry-removed' + tag, '*' not in d.d)
+                        check(it, 'explicit-entries-kept' + tag, all(d.d.get('t%d' % j) is before['t%d' % j] for j in range(nexp)))
+                        added = [(k, v) for k, v in d.d.items() if k not in before]
+                        # which schema fields must have been added: those whose name is no explicit entry's source name
+                        for sf in sfs:
+                            nm = sf.d['name']
+                            claimed = z3.Or(*[nm.t == s.t for s in srcs]) if srcs else z3.BoolVal(False)
+                            hits = [(k, v) for k, v in added if isinstance(k, SV) and k.t.eq(nm.t)]
+                            check(it, 'unclaimed-source-field-gets-an-entry-claimed-one-does-not' + tag,
+                                  z3.If(claimed, z3.BoolVal(len(hits) == 0), z3.BoolVal(len(hits) == 1)))
+                            for k, v in hits:
+                                check(it, 'added-entry-is-a-copy-of-the-wildcard-spec-named-by-the-field' + tag,
+                                      isinstance(v, PyDict) and v is not star_spec and v.d.get('aggregate') == 'last'
+                                      and isinstance(v.d.get('name'), SV) and v.d['name'].t.eq(nm.t))
+                        check(it, 'nothing-else-added' + tag, all(any(isinstance(k, SV) and k.t.eq(sf.d['name'].t) for sf in sfs) for k, v in added))
+                        cover(it, 'reachable' + tag)
+                    vc.explore(fk, thunk2)
+        # ---- order_fields
+        for nexp in (0, 1, 2, 3):
+            for nsf in (0, 1, 2):
+                def thunk3(it, nexp=nexp, nsf=nsf):
+                    f = real_function(it, 'dataflows.processors.join', 'order_fields')
+                    keys = ['kc', 'ka', 'kb'][:nexp]
+                    d = PyDict({k: PyDict({'name': k, 'aggregate': 'any'}) for k in keys})
+                    specs = dict(d.d)
+                    # the source schema lists some of the keys (in an order of its own) and a field that is no key
+                    sf_names = (['kb', 'zz', 'kc'])[:nsf]
+                    sfs = PyList([PyDict({'name': n}) for n in sf_names])
+                    r = it.call(f, [d, sfs])
+                    got = list(r.d) if isinstance(r, PyDict) else None
+                    first = [n for n in sf_names if n in keys]
+                    # (the order among the entries that are no source schema field is not part of the property)
+                    check(it, 'schema-fields-first-in-schema-order-then-the-other-keys[%d,%d]' % (nexp, nsf),
+                          got is not None and got[:len(first)] == first and sorted(got) == sorted(keys))
+                    check(it, 'same-entries-same-specs[%d,%d]' % (nexp, nsf), got is not None and all(r.d[k] is specs[k] for k in got)
+                          and len(got) == len(keys))
+                    cover(it, 'reachable[%d,%d]' % (nexp, nsf))
+                vc.explore(fk, thunk3)
+    finally:
+        vc.bounded_label = None
+
+
 ITEMS = [
     Item('aggregators', sym_aggregators, [('differential', nat_join)], P + 'join.py::AGGREGATORS'),
+    Item('field-helpers', sym_field_helpers, [], P + 'join.py::fix_fields'),
     Item('KeyCalc', sym_keycalc, [], P + 'join.py::KeyCalc.__call__'),
     Item('indexer', sym_indexer, [], P + 'join.py::join_aux.indexer'),
     Item('process_target', sym_process_target, [], P + 'join.py::join_aux.process_target'),
